@@ -62,13 +62,27 @@ func H_C17_slices() {
 			want = append(want, es[i].ID)
 		}
 	}
-	kind := vChoose(4)
+	kind := vChoose(5)
 	var res interface{}
 	var rerr error
 	var got []int
 	typeOK := true
 	what := ""
 	switch kind {
+	case 4:
+		what = "[]interface{}"
+		is := make([]interface{}, n)
+		for i := range es {
+			is[i] = es[i]
+		}
+		res, rerr = f.Execute(is)
+		if rerr == nil {
+			r, ok := res.([]interface{})
+			typeOK = ok
+			for _, e := range r {
+				got = append(got, e.(eC17).ID)
+			}
+		}
 	case 0:
 		what = "[]T"
 		res, rerr = f.Execute(es)
@@ -144,6 +158,8 @@ func H_C17_slices() {
 		n2 = len(r)
 	case []*eC17:
 		n2 = len(r)
+	case []interface{}:
+		n2 = len(r)
 	}
 	vAssert(n2 == len(want), what+": idempotent")
 	vCover("reached")
@@ -160,7 +176,7 @@ func H_C17_maps() {
 		vAssume(o != oPanic)
 	}
 	keys := []string{"a", "b", "c"}
-	kind := vChoose(3)
+	kind := vChoose(4)
 	var res interface{}
 	var rerr error
 	kept := map[int]bool{}
@@ -198,6 +214,25 @@ func H_C17_maps() {
 			typeOK = ok
 			for i := range es {
 				if e, ok := r[10+i]; ok {
+					vAssert(e.ID == es[i].ID, what+": key keeps its own element")
+					kept[i] = true
+				}
+			}
+			vAssert(len(r) == len(kept), what+": no foreign keys")
+		}
+	case 3:
+		what = "map[interface{}]T with keys that print alike"
+		ikeys := []interface{}{1, "1", int8(1)}
+		in := map[interface{}]eC17{}
+		for i := range es {
+			in[ikeys[i]] = es[i]
+		}
+		res, rerr = f.Execute(in)
+		if rerr == nil {
+			r, ok := res.(map[interface{}]eC17)
+			typeOK = ok
+			for i := range es {
+				if e, ok := r[ikeys[i]]; ok {
 					vAssert(e.ID == es[i].ID, what+": key keeps its own element")
 					kept[i] = true
 				}
